@@ -5,6 +5,7 @@ import (
 
 	"github.com/kercylan98/vivid"
 	"github.com/kercylan98/vivid/internal/queues"
+	"github.com/kercylan98/vivid/internal/verifhook"
 )
 
 var (
@@ -30,12 +31,16 @@ type UnboundedMailbox struct {
 }
 
 func (m *UnboundedMailbox) Pause() {
+	verifhook.Yield("mb.pause.store", m)
 	atomic.StoreUint32(&m.paused, 1)
 }
 
 func (m *UnboundedMailbox) Resume() {
+	verifhook.Yield("mb.resume.casp", m)
 	if atomic.CompareAndSwapUint32(&m.paused, 1, 0) {
+		verifhook.Yield("mb.resume.cass", m)
 		if atomic.CompareAndSwapUint32(&m.status, idle, processing) {
+			verifhook.Yield("mb.resume.go", m)
 			go m.process()
 		}
 	}
@@ -47,14 +52,20 @@ func (m *UnboundedMailbox) IsPaused() bool {
 
 func (m *UnboundedMailbox) Enqueue(envelop vivid.Envelop) {
 	if envelop.System() {
+		verifhook.Yield("mb.enq.pushs", m)
 		m.systemBuffer.Push(envelop)
+		verifhook.Yield("mb.enq.incs", m)
 		atomic.AddInt32(&m.systemNum, 1)
 	} else {
+		verifhook.Yield("mb.enq.pushu", m)
 		m.buffer.Push(envelop)
+		verifhook.Yield("mb.enq.incu", m)
 		atomic.AddInt32(&m.num, 1)
 	}
 
+	verifhook.Yield("mb.enq.cas", m)
 	if atomic.CompareAndSwapUint32(&m.status, idle, processing) {
+		verifhook.Yield("mb.enq.go", m)
 		go m.process()
 	}
 }
@@ -63,14 +74,19 @@ func (m *UnboundedMailbox) process() {
 process:
 	m.processHandle()
 
+	verifhook.Yield("mb.proc.store", m)
 	atomic.StoreUint32(&m.status, idle)
+	verifhook.Yield("mb.proc.loadn", m)
 	user := atomic.LoadInt32(&m.num)
+	verifhook.Yield("mb.proc.loadsy", m)
 	system := atomic.LoadInt32(&m.systemNum)
 	if user > 0 || system > 0 {
+		verifhook.Yield("mb.proc.recas", m)
 		if atomic.CompareAndSwapUint32(&m.status, idle, processing) {
 			goto process
 		}
 	}
+	verifhook.Yield("mb.proc.exit", m)
 }
 
 func (m *UnboundedMailbox) processHandle() {
@@ -80,8 +96,11 @@ func (m *UnboundedMailbox) processHandle() {
 	for {
 		// 优先处理系统消息
 		for {
+			verifhook.Yield("mb.ph.pops", m)
 			if msg, ok = m.systemBuffer.Pop(); ok {
+				verifhook.Yield("mb.ph.decs", m)
 				atomic.AddInt32(&m.systemNum, -1)
+				verifhook.Yield("mb.ph.hnds", m)
 				m.handler.HandleEnvelop(msg.(vivid.Envelop))
 			} else {
 				break
@@ -89,13 +108,17 @@ func (m *UnboundedMailbox) processHandle() {
 		}
 
 		// 检查邮箱是否暂停，暂停时忽略普通消息处理
+		verifhook.Yield("mb.ph.loadp", m)
 		if atomic.LoadUint32(&m.paused) == 1 {
 			return
 		}
 
 		// 处理普通消息
+		verifhook.Yield("mb.ph.popu", m)
 		if msg, ok = m.buffer.Pop(); ok {
+			verifhook.Yield("mb.ph.decu", m)
 			atomic.AddInt32(&m.num, -1)
+			verifhook.Yield("mb.ph.hndu", m)
 			m.handler.HandleEnvelop(msg.(vivid.Envelop))
 		} else {
 			return
